@@ -8,6 +8,18 @@ pub mod util;
 #[path = "/verif/harness/modes_gen.rs"]
 mod modes_gen;
 
+static BUILD_RESULTS_HANDLED: std::sync::atomic::AtomicUsize = std::sync::atomic::AtomicUsize::new(0);
+
+/// hook H6 (build_target_actor.rs, end of the build-result arm): lets the actor harness wait, without sleeping,
+/// until the actor has finished handling a build result that produces no output.
+pub fn note_build_result_handled() {
+    BUILD_RESULTS_HANDLED.fetch_add(1, std::sync::atomic::Ordering::SeqCst);
+}
+
+pub fn build_results_handled() -> usize {
+    BUILD_RESULTS_HANDLED.load(std::sync::atomic::Ordering::SeqCst)
+}
+
 pub fn dispatch() -> Option<i32> {
     let mode = std::env::var("ZINOMA_VERIF").ok()?;
     let cases = std::env::var("ZINOMA_VERIF_CASES").unwrap_or_default();
